@@ -374,3 +374,86 @@ theorem dtype_fam (hl : ∀ s, (cfg.lower s).length = s.length) : ∀ (n : Nat) 
         ih e.2 (by have := Val.w_lt_we he; omega) (ok.vals e he) (tv.vals e he) (nt.vals e he) (hvals e he))
 
 end Pcore.Lat
+
+namespace Pcore.Lat
+variable (cfg : Cfg)
+
+/-- the detailed type of such a value meets the side conditions of C01 (rule off: it may hold Structs) -/
+theorem dtype_good (hl : ∀ s, (cfg.lower s).length = s.length) : ∀ (n : Nat) (v : Val), v.w ≤ n → v.OK → Val.TyOK cfg v →
+    Val.AllTyp (fun _ => False) v → Val.NoEmptyKey v → Ty.Good cfg false (dtype cfg false v) := by
+  intro n
+  induction n with
+  | zero => intro v h; have : 0 < v.w := by cases v <;> simp [Val.w] <;> omega
+            omega
+  | succ n ih =>
+    intro v hw ok tv nt ne
+    have viaP : dtype cfg false v = ptype cfg false v → Ty.Good cfg false (dtype cfg false v) := fun he => by
+      rw [he]
+      exact fam_good cfg false _ _ (Nat.le_refl _)
+        (ptype_inst cfg false hl Ty.Fam (fun _ => False) (fam_inferFam cfg false) v.w v (Nat.le_refl _) ok tv nt).2
+    cases ne with
+    | leaf _ hlf =>
+      apply viaP
+      apply dtype_eq_ptype_leaf
+      cases v <;> simp only [] at hlf ⊢
+    | sensitive x => exact viaP (by unfold dtype; rfl)
+    | array vs hall =>
+      simp only [Val.w] at hw
+      cases vs with
+      | nil => unfold dtype; refine ⟨?_, ?_, ?_⟩ <;> simp [Ty.Frag, Ty.WF, Ty.US]
+      | cons x xs =>
+        have hd : dtype cfg false (.array (x :: xs)) = .tuple (dtypeL cfg false (x :: xs)) none := by
+          conv => lhs; unfold dtype
+          conv => rhs; unfold dtypeL
+        rw [hd]
+        have hmem : ∀ t ∈ dtypeL cfg false (x :: xs), Ty.Good cfg false t := by
+          intro t ht
+          obtain ⟨i, hi, hget⟩ := List.getElem_of_mem ht
+          obtain ⟨y, hy, hty⟩ := dtypeL_get cfg false (x :: xs) i t (by rw [List.getElem?_eq_getElem hi, hget])
+          have hym := List.mem_of_getElem? hy
+          rw [hty]
+          exact ih y (by have := Val.w_lt_wl hym; omega) (ok.elems y hym) (tv.elems y hym) (nt.elems y hym) (hall y hym)
+        refine ⟨?_, ?_, ?_⟩
+        · unfold Ty.Frag; exact fun t ht => (hmem t ht).1
+        · unfold Ty.WF; exact fun t ht => (hmem t ht).2.1
+        · unfold Ty.US; right; exact fun t ht => (hmem t ht).2.2
+    | hashAny es hany =>
+      apply viaP
+      cases es with
+      | nil => simp at hany
+      | cons e0 es0 => obtain ⟨k0, v0⟩ := e0; unfold dtype; simp [hany]
+    | hashStr es hkeys hvals =>
+      simp only [Val.w] at hw
+      cases es with
+      | nil => unfold dtype; refine ⟨?_, ?_, ?_⟩ <;> simp [Ty.Frag, Ty.WF, Ty.US]
+      | cons e0 es0 =>
+        obtain ⟨k0, v0⟩ := e0
+        have hallstr : ((k0, v0) :: es0).all (fun e => isStrKey e.1) = true := by
+          simp only [List.all_eq_true]
+          intro e he; obtain ⟨s, hs, _⟩ := hkeys e he; rw [hs]; rfl
+        have hnoempty : ((k0, v0) :: es0).any (fun e => isEmptyStrKey e.1) = false := by
+          cases hh : ((k0, v0) :: es0).any (fun e => isEmptyStrKey e.1) with
+          | false => rfl
+          | true =>
+            exfalso
+            simp only [List.any_eq_true] at hh
+            obtain ⟨e, he, hk⟩ := hh
+            obtain ⟨s, hs, hne⟩ := hkeys e he
+            rw [hs] at hk; simp [isEmptyStrKey] at hk; exact hne hk
+        have hd : dtype cfg false (.hash ((k0, v0) :: es0)) = .struct (dtypeM cfg false ((k0, v0) :: es0)) := by
+          conv => lhs; unfold dtype
+          simp only [hallstr, hnoempty, Bool.not_true, Bool.false_eq_true, if_false]
+        rw [hd]
+        have hmem : ∀ m ∈ dtypeM cfg false ((k0, v0) :: es0), Ty.Good cfg false m.2.2 := by
+          intro m hm
+          obtain ⟨e, he, _, h2⟩ := dtypeM_mem cfg false _ m hm
+          rw [h2]
+          exact ih e.2 (by have := Val.w_lt_we he; omega) (ok.vals e he) (tv.vals e he) (nt.vals e he) (hvals e he)
+        have hnames : ((dtypeM cfg false ((k0, v0) :: es0)).map (·.1)).Nodup := by
+          rw [dtypeM_names]; exact names_nodup _ ok.nodup hkeys
+        refine ⟨?_, ?_, ?_⟩
+        · unfold Ty.Frag; exact ⟨rfl, fun m hm => (hmem m hm).1⟩
+        · unfold Ty.WF; exact ⟨hnames, fun m hm => (hmem m hm).2.1⟩
+        · unfold Ty.US; exact fun m hm => (hmem m hm).2.2
+
+end Pcore.Lat
